@@ -534,7 +534,9 @@ def run_case(ctx, case):
     def viol(base, detail, op, target=None, prev_mode=None):
         sig = base
         live = set(w.live_open())
-        if target is not None and target in orphans:
+        if base == "reentrant-call-rejected":
+            pass        # its own root cause, whatever state the service was in
+        elif target is not None and target in orphans:
             sig = "rejected-connection-left-open"
         elif base in ("two-live", "stop-fired-with-open-connection") and (orphans & live):
             sig = "rejected-connection-left-open"
